@@ -194,9 +194,11 @@ pub struct MockIo(pub Arc<Mutex<Shared>>);
 
 impl AsyncRead for MockIo {
     fn poll_read(self: Pin<&mut Self>, cx: &mut Context<'_>, buf: &mut [u8]) -> Poll<io::Result<usize>> {
-        let mut s = self.0.lock().expect("mock lock");
+        let mut s = self.0.lock().unwrap_or_else(std::sync::PoisonError::into_inner);
         s.reads += 1;
         s.parked_on_read = false;
+        // watchdog: a task that keeps calling the transport without ever yielding spins inside one poll
+        if s.reads > 4 * s.wire.len() as u64 + 4000 { panic!("spin: transport read polled {} times for {} bytes of input", s.reads, s.wire.len()); }
         if buf.is_empty() { return Poll::Ready(Ok(0)); }
         if s.fault.k == "rerr" && s.fault.at == s.in_read { return Poll::Ready(Err(io::Error::new(io::ErrorKind::Other, "injected read error"))); }
         let released = s.released();
@@ -225,8 +227,9 @@ impl AsyncRead for MockIo {
 
 impl MockIo {
     fn write_slices(&self, bufs: &[&[u8]]) -> Poll<io::Result<usize>> {
-        let mut s = self.0.lock().expect("mock lock");
+        let mut s = self.0.lock().unwrap_or_else(std::sync::PoisonError::into_inner);
         s.writes += 1;
+        if s.writes > 20_000 + 8 * s.wire.len() as u64 { panic!("spin: transport write polled {} times", s.writes); }
         let total: usize = bufs.iter().map(|b| b.len()).sum();
         if s.write_failed { s.wrote_after_failure = true; }
         let at = s.out.len();
@@ -505,12 +508,12 @@ pub fn execute(case: &Case, h: &[Vec<Value>]) -> RunResult {
         Ok((returned, spun, polls)) => { res.returned = returned; res.spun = spun; res.polls = polls; },
         Err(p) => res.panicked = Some(p.downcast_ref::<String>().cloned().or_else(|| p.downcast_ref::<&str>().map(|s| s.to_string())).unwrap_or_else(|| "panic".into())),
     }
-    let s = shared.lock().expect("mock lock");
+    let s = shared.lock().unwrap_or_else(std::sync::PoisonError::into_inner);
     res.parked_on_read = !res.returned && s.parked_on_read;
     res.in_read = s.in_read;
     res.out = s.out.clone();
     res.wrote_after_failure = s.wrote_after_failure;
-    let h = hstate.lock().expect("handler lock");
+    let h = hstate.lock().unwrap_or_else(std::sync::PoisonError::into_inner);
     res.log = h.log.clone();
     res.calls = h.calls;
     res
@@ -535,7 +538,11 @@ pub fn owns(prop: &str, field: &str) -> bool {
 pub fn compare(case: &Case, obs: &Obs, r: &RunResult) -> (Vec<Mismatch>, Vec<String>) {
     let mut mm = Vec::new();
     let mut drift = Vec::new();
-    if let Some(p) = &r.panicked { mm.push(Mismatch { field: "panic", what: format!("connection task panicked: {p}") }); return (mm, drift); }
+    if let Some(p) = &r.panicked {
+        if p.starts_with("spin:") { mm.push(Mismatch { field: "spin", what: format!("connection task spins without yielding: {p}") }); }
+        else { mm.push(Mismatch { field: "panic", what: format!("connection task panicked: {p}") }); }
+        return (mm, drift);
+    }
     if r.spun { mm.push(Mismatch { field: "spin", what: format!("connection task was still being woken after {} polls (spinning)", r.polls) }); return (mm, drift); }
     if r.returned == obs.parked {
         mm.push(Mismatch { field: "returned", what: format!("Token::run {}, specification: {}", if r.returned { "returned" } else { "is suspended" },
